@@ -15,8 +15,6 @@ impl<const N: usize> Bvf<{I}, N> {
     pub open spec fn cap() -> int { N * {I.bits} }
 }
 
-pub open spec fn bit_of(b: Bit) -> bool { b == Bit::One }
-pub open spec fn to_bit(b: bool) -> Bit { if b { Bit::One } else { Bit::Zero } }
 
 pub proof fn lemma_zero_words<const N: usize>(d: [{I}; N])
     requires forall|k: int| 0 <= k < N ==> d@[k] == 0{I}
